@@ -198,12 +198,12 @@ def _grouped_or_aggregated(feature, grouped):
     return all(_grouped_or_aggregated(child, grouped) for _, child in dslgen.children(feature) if dslgen.is_feature(child))
 
 
-def forml_rows(ast, conn):
+def forml_rows(ast, conn, rename=None):
     """Build with the real DSL, parse with the real alchemy parser, execute."""
     from forml.provider.feed.reader import alchemy
     from vlib import dslgen
 
-    statement = dslgen.build(ast)
+    statement = dslgen.build(ast, rename=rename)
     with alchemy.Parser(dslgen.alchemy_sources(), {}) as visitor:
         statement.accept(visitor)
         selectable = visitor.fetch()
@@ -256,7 +256,7 @@ def _source_tables(source):
 
 
 def check_statement(ctx, engines, raw, data, datakey):
-    from vlib import dsleval, dslgen
+    from vlib import core, dsleval, dslgen
 
     ctx.count('evaluations')
     try:
@@ -299,6 +299,11 @@ def check_statement(ctx, engines, raw, data, datakey):
                     ctx.count('skipped_nested_limit_with_ties')
                     return
         ctx.count('nested_limit_cases')
+    # every other statement with two references that are never visible together is built with both sharing one name
+    rename = dslgen.shared_names(ast) if core.subseed(0, sig) % 2 else {}
+    if rename:
+        ctx.count('shared_reference_name_cases')
+        witness['rename'] = rename
     engines.load(data, datakey)
     for name, conn in engines.conns.items():
         ctx.count(f'engine_{name}')
@@ -319,7 +324,7 @@ def check_statement(ctx, engines, raw, data, datakey):
             ctx.note_set('oracle_disagreement_samples', {'sql': mine_sql[:300], 'engine': name}, cap=5)
             continue
         try:
-            theirs, their_sql = forml_rows(ast, conn)
+            theirs, their_sql = forml_rows(ast, conn, rename)
         except Exception as err:  # pylint: disable=broad-except
             try:
                 conn.rollback()
